@@ -44,6 +44,7 @@ func main() {
 			if !strings.HasPrefix(id, "C") {
 				continue
 			}
+			rules.Cur = p
 			func() {
 				defer func() { recover() }()
 				rules.Registry[id](&rules.Ctx{P: p, R: core.NewReport(id, "quick", 0), Tier: "quick", Verif: *verif})
@@ -93,6 +94,7 @@ func main() {
 				}
 			}
 		}()
+		rules.Cur = p
 		run(&rules.Ctx{P: p, R: rep, Tier: *tier, Only: *only, Verif: *verif})
 	}()
 	if len(p.Renamed) > 0 {
